@@ -181,6 +181,13 @@ func init() {
 			parts = append(parts, m.observeString(m.sliceElem(sv, i)))
 		}
 		m.Observed = append(m.Observed, strings.Join(parts, " "))
+		if m.Cfg.Witness != nil {
+			rec := obsRec{label: label}
+			for i := 0; i < sv.Len; i++ {
+				rec.vals = append(rec.vals, m.sliceElem(sv, i))
+			}
+			m.observedV = append(m.observedV, rec)
+		}
 		return nil
 	})
 	reg(rtPkg+".CutActive", func(m *Machine, a []Value) Value {
